@@ -413,6 +413,9 @@ fn main() {
     if let Some(f) = arg(&args, "--force-dispatch").and_then(|s| s.parse::<u8>().ok()) {
         env::set_force_dispatch(f);
     }
+    // calibration of the one thing the documentation leaves open about the public torsion table: which generator
+    // element 1 is (accepted only if it has exact order 8; see refmodel::ed::torsion_table_documented)
+    let _ = refmodel::ed::set_torsion_anchor(&curve25519_dalek::constants::EIGHT_TORSION[1].compress().to_bytes());
     let code = match args.first().map(|s| s.as_str()) {
         Some("run") => cmd_run(&args[1..]),
         Some("replay") => cmd_replay(&args[1..]),
